@@ -13,6 +13,12 @@ CHECKS = {
         text='Generated-input search with four oracles (round trip, independent reference decoder, reference encoder choosing arbitrary legal formats, raw-byte differential). The boundary sets named by the property are enumerated completely; nested values and byte streams are sampled. Right level: the codec is a pure function of its input, so generated search against a spec-derived reference decides it directly.',
         design_ref='DESIGN.md section 4 (C14)',
         note='Trusts vlib/ref/msgpack_ref.py (self-tested against spec vectors each run), CPython struct/int.to_bytes; map keys restricted to hashable Python values; compatibility mode off.'),
+    'C07': dict(
+        technique='property-based differential testing: Hypothesis-generated directory trees, importlib (PathFinder / resolve_name / pkgutil) as reference model',
+        category='exploration',
+        text='Every generated tree is materialised on disk and every derived absolute name, relative specifier and import-line completion is compared with what importlib computes for the same (roots + sys.path). Differential against the real import machinery is the strongest executable oracle for this property; trees are sampled, the queries per tree are enumerated completely.',
+        design_ref='DESIGN.md section 4 (C07)',
+        note='Trusts importlib/pkgutil of CPython 3.12; only .py files are generated (extension modules referenced by name); namespace packages and module/package twins are outside the property domain.'),
 }
 
 NOT_YET = 'check not built yet in this session (planned in DESIGN.md section 4); not claimed until its command exists'
